@@ -11,6 +11,7 @@ pub const LIMIT_MS: u64 = 10_000;
 pub struct Slot {
     start_ms: AtomicU64,
     ctx: Mutex<String>,
+    case: Mutex<Option<(bool, Vec<crate::sys::Step>, usize)>>,
 }
 
 static SLOTS: Mutex<Vec<Arc<Slot>>> = Mutex::new(Vec::new());
@@ -18,7 +19,7 @@ static T0: OnceLock<Instant> = OnceLock::new();
 
 thread_local! {
     static MINE: Arc<Slot> = {
-        let s = Arc::new(Slot { start_ms: AtomicU64::new(0), ctx: Mutex::new(String::new()) });
+        let s = Arc::new(Slot { start_ms: AtomicU64::new(0), ctx: Mutex::new(String::new()), case: Mutex::new(None) });
         SLOTS.lock().unwrap().push(s.clone());
         s
     };
@@ -31,6 +32,11 @@ fn now_ms() -> u64 {
 /// Describes what this thread is about to execute (JSON of the case).
 pub fn set_ctx(ctx: String) {
     MINE.with(|s| *s.ctx.lock().unwrap() = ctx);
+}
+
+/// Cheap form: the case itself, serialized only if the watchdog fires.
+pub fn set_case(json_codec: bool, steps: &[crate::sys::Step], fault_at: usize) {
+    MINE.with(|s| *s.case.lock().unwrap() = Some((json_codec, steps.to_vec(), fault_at)));
 }
 
 pub fn begin() {
@@ -51,7 +57,19 @@ pub fn start_monitor(property: &'static str) {
         for s in slots {
             let st = s.start_ms.load(Ordering::Relaxed);
             if st != 0 && now.saturating_sub(st) > LIMIT_MS {
-                let ctx = s.ctx.lock().map(|c| c.clone()).unwrap_or_default();
+                let mut ctx = s.ctx.lock().map(|c| c.clone()).unwrap_or_default();
+                if let Ok(c) = s.case.lock() {
+                    if let Some((json_codec, steps, fault_at)) = c.as_ref() {
+                        ctx = serde_json::json!({
+                            "engine": "bridgex-faults",
+                            "codec": if *json_codec { "json" } else { "bincode" },
+                            "steps": steps,
+                            "fault_at": fault_at,
+                            "probe_after": false,
+                        })
+                        .to_string();
+                    }
+                }
                 let dir = mc_kit::verif_root().join("replays");
                 let _ = std::fs::create_dir_all(&dir);
                 let path = dir.join(format!("{property}-hang.json"));
